@@ -266,7 +266,7 @@ def gen_cases(ctx, root, files, longdirs):
             data = body + fill + (b"\r\n\r\n" if termpos == "end" else b"wxyz")
             data = data[:total] if termpos != "end" else data
             for mode in ("one", "two", "few", "tail"):
-                if quick and rng.random() < 0.5:
+                if quick and mode != "one" and rng.random() < 0.6:
                     continue
                 add("long", default_cfg(rng), [segment(rng, data, mode)])
     for total in (32767, 32768):   # terminator straddling the last byte
@@ -320,6 +320,28 @@ def gen_cases(ctx, root, files, longdirs):
         ws = rng.choice([b"", b" ", b"\t", b"\n", b" \x0b\x0c\r "])
         sg = rng.choice([b"", b"", b"+", b"-", b"+-"])
         add("proxy-atoi", cfg, [segment(rng, b"CONNECT h:" + ws + sg + num + rng.choice([b"", b" HTTP/1.0", b"x", b":1"]) + b"\r\n\r\n")])
+    # F'. every fixed-size buffer exactly at and beyond its limit (always part of the quick tier)
+    big_host = b"h" * 254                                   # thisHost is char[255]; str[288] takes host:display
+    for port in (2147483647, -2147477748, 5900, 0):        # port-5900 = 2147477747 / -2147483648 (11 characters)
+        cfgb = dict(default_cfg(rng), host=big_host, port=port, name=b"D" * 5000, user=b"U" * 5000)
+        add("bounds", cfgb, [[b"GET /index.vnc HTTP/1.0\r\n\r\n"], [b"GET /dollar.vnc?a=b HTTP/1.0\r\n\r\n"]])
+    for ln in (126, 127, 128, 129, 1000):                   # one piece against param_request[128]
+        add("bounds", default_cfg(rng), [[b"GET /index.vnc?n=" + b"v" * (ln - 2) + b" HTTP/1.0\r\n\r\n"]])
+    for ln in (124, 125, 126):                              # longest accepted piece: formatted text against param_formatted[196]
+        add("bounds", default_cfg(rng), [[b"GET /index.vnc?" + b"n" * (ln // 2) + b"=" + b"v" * (ln - ln // 2) + b"\n\n"]])
+    for tot in (1022, 1023, 1024, 1025, 1026, 3000):        # sum of formatted pieces against params[1024]
+        pieces, cur = [], 0
+        while cur + 52 <= tot - 30:
+            pieces.append(b"k=" + b"v" * 26)
+            cur += 52
+        last = tot - cur - 1 - 25 - 1                       # cur + 25 + 1 + len(value) + 1 == tot
+        if last >= 1:
+            pieces.append(b"z=" + b"u" * last)
+        line = b"GET /index.vnc?" + b"&".join(pieces)
+        add("bounds", default_cfg(rng, suffix=""), [[line + b"\n\n"]] if len(line) < 480 else [[line[:470] + b"\n\n"]])
+    for tot in (BUF - 3, BUF - 2, BUF - 1, BUF, BUF + 1):   # buf[32768]: blank line ending exactly at the limit / one beyond
+        data = b"GET /plain.txt HTTP/1.0\r\nX: " + b"a" * (tot - 28 - 4) + b"\r\n\r\n"
+        add("bounds", default_cfg(rng), [[data], [data[:1000], data[1000:]]])
     # G. close / error / EAGAIN, restart at 0 on every call
     for _ in range(60 * mult):
         cfg = default_cfg(rng)
@@ -501,6 +523,10 @@ def oracle_req(env, cfg, segs, impl):
     opens = [l.split() for l in impl if l.startswith("open ")]
     sent = b"".join(unhx(l.split()[1]) for l in impl if l.startswith("send "))
     crash = [l for l in impl if l.startswith("crash")]
+    if any(l.startswith("accepted ") and "nonblock=0" in l for l in impl):
+        feat.update(kind="blocking-socket")
+        return ("rfbHttpCheckFds leaves an accepted HTTP connection (%s listener) blocking: an incomplete request stalls the RFB service%s" %
+                ("IPv6" if any("v6=1" in l for l in impl if l.startswith("accepted ")) else "IPv4", " (observed: the call did not return)" if crash else ""), feat)
     if crash:
         feat.update(kind="crash", asan=crash[0].split()[1] if len(crash[0].split()) > 1 else "?")
         if "timeout" in crash[0]:
@@ -508,6 +534,11 @@ def oracle_req(env, cfg, segs, impl):
             return ("rfbHttpCheckFds does not return: an HTTP connection%s blocks the event loop (RFB service stalled)" %
                     (" without terminating blank line" if not has_blank else ""), feat)
         return ("httpd does not survive the request: implementation %s" % crash[0], feat)
+    acc = [l for l in impl if l.startswith("accepted ")]
+    if acc and "nonblock=0" in acc[0]:
+        feat.update(kind="blocking-socket")
+        return ("rfbHttpCheckFds leaves an accepted HTTP connection (%s listener) blocking: an incomplete request stalls the RFB service" %
+                ("IPv6" if "v6=1" in acc[0] else "IPv4"), feat)
     if not impl or not any(l.startswith("status") for l in impl):
         feat.update(kind="no-observation")
         return ("implementation produced no complete observation", feat)
